@@ -75,8 +75,8 @@ MISSING_BOTH = ["_", "!", "DECIMAL", "NUMERAL", "STRING"]
 MISSING_STD = ["BINARY", "HEXADECIMAL", "match", "check-sat-assuming", "declare-datatype", "declare-datatypes",
                "define-fun-rec", "define-funs-rec", "get-unsat-assumptions", "reset", "reset-assertions"]
 NUMLIKE = ["-5", "-12/7", "-0.5", "-1.50", "-7", "-3/2", "-10.25"]
-SOLVER_RESERVED = ["@0", "@1", "@d2", "@a", ".frame0", ".frame1", ".ite1", ".arg0", ".purify_1", ".x"]
-INTERNAL_LIKE = ["x0", "x1", "x2", "x!0", "x!1", "y!0", "r0", "r1", "?def0", "?def1", "UFDefault", "x", "y"]
+SOLVER_RESERVED = ["@0", "@1", "@d1", "@d2", "@a", ".frame0", ".frame1", ".ite1", ".arg0", ".purify_1", ".purify_2", ".x"]
+INTERNAL_LIKE = ["x0", "x1", "x2", "x3", "x4", "x!0", "x!1", "x!2", "y!0", "r0", "r1", "?def0", "?def1", "UFDefault", "x", "y"]
 SORTLIKE = ["Int", "Real", "Bool", "Array", "U", "BitVec"]
 
 GOOD_CLASSES = ["plain", "simple-special", "quoted-space", "quoted-paren", "quoted-semicolon", "quoted-dquote",
